@@ -217,4 +217,383 @@ theorem ftm_pick_inv (sc : F64.Scaled) (h1 : sc.lo ≤ sc.v + 1) (h2 : sc.v ≤ 
           subst this
           exact ftm_no_multiple sc _ (Nat.pow_pos (by decide)) h1 h2 n1 n2
 
+/-! ## (3) upper bound: `hi ≤ 10^18` (the estimate `est` is at most `1` below `⌊log10 x⌋`; table check) -/
+
+private theorem ftm_tabPos : ∀ i < 1024, 2 ^ (i + 1) ≤ 10 ^ (i * 30103 / 100000 + 2) := by decide +kernel
+private theorem ftm_tabNeg : ∀ j < 1075, 2 * 10 ^ ((j * 30103 + 99999) / 100000) ≤ 100 * 2 ^ j := by
+  decide +kernel
+
+/-- `2^(T+1) ≤ 10^(est+2)` for every binary exponent `T` of a finite double, cross-multiplied -/
+theorem ftm_table (T : Int) (h1 : -1074 ≤ T) (h2 : T ≤ 1023) :
+    2 * (10 ^ (-(T * 30103 / 100000)).toNat * 2 ^ T.toNat) ≤
+      100 * (10 ^ (T * 30103 / 100000).toNat * 2 ^ (-T).toNat) := by
+  by_cases h : 0 ≤ T
+  · have := ftm_tabPos T.toNat (by omega)
+    have a1 : (T * 30103 / 100000).toNat = T.toNat * 30103 / 100000 := by omega
+    have a2 : (-T).toNat = 0 := by omega
+    have a3 : (-(T * 30103 / 100000)).toNat = 0 := by omega
+    simp only [a1, a2, a3, Nat.pow_zero, Nat.mul_one, Nat.one_mul]
+    rw [Nat.pow_succ, Nat.pow_add] at this
+    omega
+  · have := ftm_tabNeg (-T).toNat (by omega)
+    have a1 : (T * 30103 / 100000).toNat = 0 := by omega
+    have a2 : T.toNat = 0 := by omega
+    have a3 : (-(T * 30103 / 100000)).toNat = ((-T).toNat * 30103 + 99999) / 100000 := by omega
+    simp only [a1, a2, a3, Nat.pow_zero, Nat.mul_one, Nat.one_mul]
+    exact this
+
+private theorem ftm_upper_aux (L m : Nat) (e : Int) (hLm : m < 2 ^ (L + 1))
+    (hT1 : -1074 ≤ (L : Int) + e) (hT2 : (L : Int) + e ≤ 1023) :
+    h4 m * scA e (((L : Int) + e) * 30103 / 100000 - 16)
+      ≤ 10 ^ 18 * scDen e (((L : Int) + e) * 30103 / 100000 - 16) := by
+  have tb := ftm_table ((L : Int) + e) hT1 hT2
+  generalize ((L : Int) + e) * 30103 / 100000 = est at tb ⊢
+  obtain ⟨k10, h10a, h10b⟩ : ∃ k10, 16 + (est - 16).toNat = est.toNat + k10 ∧
+      (-(est - 16)).toNat = (-est).toNat + k10 := ⟨16 + (est - 16).toNat - est.toNat, by omega, by omega⟩
+  obtain ⟨k2, h2a, h2b⟩ : ∃ k2, (2 - e).toNat = (-((L : Int) + e)).toNat + k2 ∧
+      L + 2 + (e - 2).toNat = ((L : Int) + e).toNat + k2 :=
+    ⟨(2 - e).toNat - (-((L : Int) + e)).toNat, by omega, by omega⟩
+  unfold scA scDen
+  have E1 : 10 ^ 16 * 10 ^ (est - 16).toNat = 10 ^ est.toNat * 10 ^ k10 := by
+    rw [← Nat.pow_add, ← Nat.pow_add, h10a]
+  have E2 : 10 ^ (-(est - 16)).toNat = 10 ^ (-est).toNat * 10 ^ k10 := by
+    rw [← Nat.pow_add, h10b]
+  have E3 : 2 ^ (2 - e).toNat = 2 ^ (-((L : Int) + e)).toNat * 2 ^ k2 := by
+    rw [← Nat.pow_add, h2a]
+  have E4 : 2 ^ L * 4 * 2 ^ (e - 2).toNat = 2 ^ ((L : Int) + e).toNat * 2 ^ k2 := by
+    rw [← Nat.pow_add, ← h2b, Nat.pow_add, Nat.pow_add]
+  have hh : h4 m ≤ 2 * (2 ^ L * 4) := by
+    unfold h4
+    rw [Nat.pow_succ] at hLm
+    omega
+  have e18 : (10 : Nat) ^ 18 = 100 * 10 ^ 16 := by decide
+  calc h4 m * (10 ^ (-(est - 16)).toNat * 2 ^ (e - 2).toNat)
+      ≤ 2 * (2 ^ L * 4) * (10 ^ (-(est - 16)).toNat * 2 ^ (e - 2).toNat) := Nat.mul_le_mul_right _ hh
+    _ = 2 * (10 ^ (-(est - 16)).toNat * (2 ^ L * 4 * 2 ^ (e - 2).toNat)) := by ac_rfl
+    _ = 2 * ((10 ^ (-est).toNat * 10 ^ k10) * (2 ^ ((L : Int) + e).toNat * 2 ^ k2)) := by rw [E2, E4]
+    _ = 2 * (10 ^ (-est).toNat * 2 ^ ((L : Int) + e).toNat) * (10 ^ k10 * 2 ^ k2) := by ac_rfl
+    _ ≤ 100 * (10 ^ est.toNat * 2 ^ (-((L : Int) + e)).toNat) * (10 ^ k10 * 2 ^ k2) :=
+        Nat.mul_le_mul_right _ tb
+    _ = 100 * ((10 ^ est.toNat * 10 ^ k10) * (2 ^ (-((L : Int) + e)).toNat * 2 ^ k2)) := by ac_rfl
+    _ = 100 * ((10 ^ 16 * 10 ^ (est - 16).toNat) * 2 ^ (2 - e).toNat) := by rw [← E1, ← E3]
+    _ = 10 ^ 18 * (10 ^ (est - 16).toNat * 2 ^ (2 - e).toNat) := by rw [e18]; ac_rfl
+
+/-- the upper end of the rounding interval is at most `10^(est+2)`: `h4·a ≤ 10^18·den` -/
+theorem ftm_upper (m : Nat) (e : Int) (hc : Canon m e) :
+    h4 m * scA e (estOf m e - 16) ≤ 10 ^ 18 * scDen e (estOf m e - 16) := by
+  have hL := ftk_log2_lt m e hc
+  have h1 := hc.elo
+  have h2 := hc.ehi
+  exact ftm_upper_aux m.log2 m e Nat.lt_log2_self (by omega) (by omega)
+
+/-- (3) `hi ≤ 10^18` -/
+theorem scale_hi_le (m : Nat) (e : Int) (hc : Canon m e) (asym : Bool) : (F64.scale m e asym).hi ≤ 10 ^ 18 := by
+  have h := (scale_le_hi_iff m e asym hc.pos (F64.scale m e asym).hi).1 (Nat.le_refl _)
+  have hu := ftm_upper m e hc
+  have h' : (F64.scale m e asym).hi * scDen e (estOf m e - 16) ≤ h4 m * scA e (estOf m e - 16) := by
+    split at h
+    · exact h
+    · exact Nat.le_of_lt h
+  exact Nat.le_of_mul_le_mul_right (Nat.le_trans h' hu) (ftk_scDen_pos _ _)
+
+theorem ftm_noMult_19 (m : Nat) (e : Int) (hc : Canon m e) (asym : Bool) :
+    NoMult (F64.scale m e asym) (10 ^ 19) := by
+  intro k hk _ hhi
+  have h := scale_hi_le m e hc asym
+  have : 1 * 10 ^ 19 ≤ k * 10 ^ 19 := Nat.mul_le_mul_right _ hk
+  have e18 : (10 : Nat) ^ 18 = 1000000000000000000 := by decide
+  have e19 : (10 : Nat) ^ 19 = 10000000000000000000 := by decide
+  rw [e18] at h
+  rw [e19] at this hhi
+  omega
+
+/-! ## where `pick` stops -/
+
+private theorem ftm_e18 : (1000000000000000000 : Nat) = 10 ^ 18 := by decide
+
+/-- `pick` stops at a unit `10^j`, `j ≤ 18`, with non-zero digits `c`, `c·10^j ∈ [lo, hi]`, and no positive
+multiple of the next larger unit lies in `[lo, hi]` -/
+theorem pick_stop (m : Nat) (e : Int) (hc : Canon m e) (c : Nat) (s : Int)
+    (h : F64.pick (F64.scale m e (asymOf m e)) 19 1000000000000000000
+      ((F64.scale m e (asymOf m e)).s0 + 18) = (c, s)) :
+    ∃ j : Nat, j ≤ 18 ∧ s = estOf m e - 16 + j ∧ c ≠ 0 ∧
+      (F64.scale m e (asymOf m e)).lo ≤ c * 10 ^ j ∧ c * 10 ^ j ≤ (F64.scale m e (asymOf m e)).hi ∧
+      NoMult (F64.scale m e (asymOf m e)) (10 ^ (j + 1)) := by
+  have hne := pick_succeeds m e hc
+  rw [h] at hne
+  have hne' : c ≠ 0 := hne
+  rw [ftm_e18] at h
+  obtain ⟨i, hi, hs, hlo, hhi, hno⟩ := ftm_pick_inv _ (scale_lo_le_v_succ m e _ hc.pos)
+    (scale_v_le_hi m e _ hc.pos) c s hne' 18 _ h
+  rw [scale_s0] at hs
+  refine ⟨i, hi, by omega, hne', hlo, hhi, ?_⟩
+  by_cases h18 : i = 18
+  · subst h18; exact ftm_noMult_19 m e hc _
+  · exact hno (i + 1) (by omega) (by omega)
+
+/-! ## (4) (5) (6) the general branch -/
+
+/-- (4) every decimal inside the rounding interval has an exponent at most the one `pick` returns -/
+theorem ftm_exp_le (m : Nat) (e : Int) (hm : 0 < m) (asym : Bool) (j : Nat)
+    (hno : NoMult (F64.scale m e asym) (10 ^ (j + 1)))
+    (D : Nat) (S : Int) (hD : 0 < D) (hin : Inside m e asym D S) : S ≤ estOf m e - 16 + j := by
+  apply Int.not_lt.1
+  intro hlt
+  obtain ⟨q, hq⟩ : ∃ q : Nat, S = estOf m e - 16 + ((q + (j + 1) : Nat) : Int) :=
+    ⟨(S - (estOf m e - 16) - (j + 1)).toNat, by omega⟩
+  rw [hq, ← inside_shift, ← scale_inside_iff m e asym hm] at hin
+  have e1 : D * 10 ^ (q + (j + 1)) = D * 10 ^ q * 10 ^ (j + 1) := by rw [Nat.pow_add, Nat.mul_assoc]
+  rw [e1] at hin
+  exact hno (D * 10 ^ q) (Nat.mul_pos hD (Nat.pow_pos (by decide))) hin.1 hin.2
+
+/-- (5) the digits have no trailing zero -/
+theorem ftm_no_trailing_zero (sc : F64.Scaled) (j c : Nat) (hc : c ≠ 0)
+    (hlo : sc.lo ≤ c * 10 ^ j) (hhi : c * 10 ^ j ≤ sc.hi) (hno : NoMult sc (10 ^ (j + 1))) : c % 10 ≠ 0 := by
+  intro h0
+  have e1 : c * 10 ^ j = c / 10 * 10 ^ (j + 1) := by
+    have : c = c / 10 * 10 := by omega
+    rw [Nat.pow_succ, Nat.mul_comm (10 ^ j) 10, ← Nat.mul_assoc, ← this]
+  rw [e1] at hlo hhi
+  exact hno (c / 10) (by omega) hlo hhi
+
+/-- (6) every decimal inside the rounding interval with exponent `S ≤ s0 + j` exceeds `10·⌊c/10⌋` -/
+theorem ftm_digits_gt (m : Nat) (e : Int) (hm : 0 < m) (asym : Bool) (j c : Nat) (hc10 : 10 ≤ c)
+    (hhi : c * 10 ^ j ≤ (F64.scale m e asym).hi) (hno : NoMult (F64.scale m e asym) (10 ^ (j + 1)))
+    (D : Nat) (S : Int) (hS : S ≤ estOf m e - 16 + j) (hin : Inside m e asym D S) : 10 * (c / 10) < D := by
+  have hk : 0 < c / 10 := by omega
+  -- `K = ⌊c/10⌋·10^(j+1) ≤ c·10^j ≤ hi`, so `K < lo`
+  have hK : c / 10 * 10 ^ (j + 1) ≤ c * 10 ^ j := by
+    rw [Nat.pow_succ, Nat.mul_comm (10 ^ j) 10, ← Nat.mul_assoc]
+    exact Nat.mul_le_mul_right _ (by omega)
+  have hnlo : ¬ (F64.scale m e asym).lo ≤ c / 10 * 10 ^ (j + 1) :=
+    fun hlo => hno (c / 10) hk hlo (Nat.le_trans hK hhi)
+  rw [scale_lo_above m e asym hm, above_shift] at hnlo
+  -- the same decimal at exponent `S`
+  obtain ⟨p, hp⟩ : ∃ p : Nat, estOf m e - 16 + ((j + 1 : Nat) : Int) = S + ((p + 1 : Nat) : Int) :=
+    ⟨(estOf m e - 16 + j - S).toNat, by omega⟩
+  rw [hp, ← above_shift] at hnlo
+  apply Nat.lt_of_not_le
+  intro hle
+  apply hnlo
+  refine above_mono hin.above (Nat.le_trans hle ?_)
+  rw [Nat.pow_succ, Nat.mul_comm (10 ^ p) 10, ← Nat.mul_assoc, Nat.mul_comm 10]
+  exact Nat.le_mul_of_pos_right _ (Nat.pow_pos (by decide))
+
+/-- **general branch: what `pick` returns is minimal** — every decimal `D·10^S` (`D > 0`) inside the rounding
+interval has an exponent `S ≤ s` and at least as many digits as `c` -/
+theorem pick_minimal (m : Nat) (e : Int) (hc : Canon m e) (c : Nat) (s : Int)
+    (h : F64.pick (F64.scale m e (asymOf m e)) 19 1000000000000000000
+      ((F64.scale m e (asymOf m e)).s0 + 18) = (c, s))
+    (D : Nat) (S : Int) (hD : 0 < D) (hin : Inside m e (asymOf m e) D S) :
+    S ≤ s ∧ ndigits c ≤ ndigits D := by
+  obtain ⟨j, _, hs, hc0, hlo, hhi, hno⟩ := pick_stop m e hc c s h
+  have hS := ftm_exp_le m e hc.pos _ j hno D S hD hin
+  refine ⟨by omega, ?_⟩
+  by_cases hc10 : c < 10
+  · rw [ndigits_lt_ten c hc10]; exact ndigits_pos D
+  · have hgt := ftm_digits_gt m e hc.pos _ j c (by omega) hhi hno D S hS hin
+    rw [ndigits_ge_ten c (by omega), ndigits_ge_ten D (by omega)]
+    exact Nat.succ_le_succ (ndigits_mono (by omega))
+
+/-- **the digits `pick` returns have no trailing zero** -/
+theorem pick_no_trailing_zero (m : Nat) (e : Int) (hc : Canon m e) (c : Nat) (s : Int)
+    (h : F64.pick (F64.scale m e (asymOf m e)) 19 1000000000000000000
+      ((F64.scale m e (asymOf m e)).s0 + 18) = (c, s)) : c % 10 ≠ 0 := by
+  obtain ⟨j, _, _, hc0, hlo, hhi, hno⟩ := pick_stop m e hc c s h
+  exact ftm_no_trailing_zero _ j c hc0 hlo hhi hno
+
+/-! ## `stripZeros` with enough fuel strips every trailing zero -/
+
+theorem stripZeros_done (f d : Nat) (s : Int) (hd : 0 < d) :
+    (F64.stripZeros f d s).1 % 10 ≠ 0 ∨ (F64.stripZeros f d s).2 = s + f := by
+  induction f generalizing d s with
+  | zero => right; simp [F64.stripZeros]
+  | succ f ih =>
+    simp only [F64.stripZeros]
+    split
+    · rename_i hc
+      simp only [Bool.and_eq_true, bne_iff_ne, ne_eq, beq_iff_eq] at hc
+      rcases ih (d / 10) (s + 1) (by omega) with h | h
+      · exact Or.inl h
+      · right; rw [h]; push_cast; omega
+    · rename_i hc
+      simp only [Bool.and_eq_true, bne_iff_ne, ne_eq, beq_iff_eq, not_and] at hc
+      left
+      exact hc (by omega)
+
+theorem stripZeros_id (f c : Nat) (s : Int) (h : c % 10 ≠ 0) : F64.stripZeros f c s = (c, s) := by
+  cases f with
+  | zero => rfl
+  | succ f =>
+    simp only [F64.stripZeros]
+    split
+    · rename_i hc
+      simp only [Bool.and_eq_true, bne_iff_ne, ne_eq, beq_iff_eq] at hc
+      exact absurd hc.2 h
+    · rfl
+
+private theorem ftm_pow_cancel (d D a b : Nat) (hd : d % 10 ≠ 0) (h : d * 10 ^ a = D * 10 ^ b) : d ≤ D := by
+  by_cases hab : b ≤ a
+  · obtain ⟨r, rfl⟩ : ∃ r, a = r + b := ⟨a - b, by omega⟩
+    rw [Nat.pow_add, ← Nat.mul_assoc] at h
+    have := Nat.eq_of_mul_eq_mul_right (Nat.pow_pos (by decide)) h
+    rw [← this]
+    exact Nat.le_mul_of_pos_right _ (Nat.pow_pos (by decide))
+  · exfalso
+    obtain ⟨r, rfl⟩ : ∃ r, b = r + 1 + a := ⟨b - a - 1, by omega⟩
+    rw [Nat.pow_add, ← Nat.mul_assoc] at h
+    have := Nat.eq_of_mul_eq_mul_right (Nat.pow_pos (by decide)) h
+    rw [Nat.pow_succ, ← Nat.mul_assoc] at this
+    omega
+
+/-! ## (7) the integer branch -/
+
+private theorem ftm_int_quarter (m : Nat) (e : Int) (n : Nat) (he : e ≤ 0) (hn : m = n * 2 ^ (-e).toNat) :
+    ∃ W, 4 ≤ W ∧ 2 ^ (0 - (e - 2)).toNat = W ∧ 4 * m = n * W := by
+  refine ⟨2 ^ (0 - (e - 2)).toNat, ?_, rfl, ?_⟩
+  · have : (0 - (e - 2)).toNat = (-e).toNat + 2 := by omega
+    rw [this, Nat.pow_add]
+    have := Nat.pow_pos (n := (-e).toNat) (show 0 < 2 by decide)
+    omega
+  · have : (0 - (e - 2)).toNat = (-e).toNat + 2 := by omega
+    rw [this, Nat.pow_add, ← Nat.mul_assoc, ← hn]; omega
+
+/-- a decimal with negative exponent inside the rounding interval of the integer `n`: `n ≤ D` -/
+theorem ftm_int_ge (m : Nat) (e : Int) (asym : Bool) (n : Nat) (he : e ≤ 0) (hn : m = n * 2 ^ (-e).toNat)
+    (h0 : 0 < n) (D : Nat) (S : Int) (hS : S < 0) (hin : Inside m e asym D S) : n ≤ D := by
+  obtain ⟨W, hW, eW, hm⟩ := ftm_int_quarter m e n he hn
+  have h := hin.1.1
+  unfold Le2 at h
+  have k1 : (e - 2 - 0).toNat = 0 := by omega
+  have k2 : S.toNat = 0 := by omega
+  rw [k1, k2, eW, Nat.pow_zero, Nat.mul_one, Nat.mul_one] at h
+  have hP : l4 m asym ≤ l4 m asym * 10 ^ (-S).toNat := Nat.le_mul_of_pos_right _ (Nat.pow_pos (by decide))
+  have hl : 4 * m - 2 ≤ l4 m asym := by unfold l4; split <;> omega
+  apply Nat.le_of_not_lt
+  intro hlt
+  have h1 : (D + 1) * W ≤ n * W := Nat.mul_le_mul_right W hlt
+  rw [Nat.add_mul, Nat.one_mul] at h1
+  have h2 : 1 * W ≤ n * W := Nat.mul_le_mul_right W h0
+  omega
+
+/-- a decimal with non-negative exponent inside the rounding interval of the integer `n` is `n` -/
+theorem ftm_int_eq (m : Nat) (e : Int) (asym : Bool) (n : Nat) (he : e ≤ 0) (hn : m = n * 2 ^ (-e).toNat)
+    (h0 : 0 < n) (D : Nat) (S : Int) (hS : 0 ≤ S) (hin : Inside m e asym D S) : D * 10 ^ S.toNat = n := by
+  obtain ⟨W, hW, eW, hm⟩ := ftm_int_quarter m e n he hn
+  have hlo := hin.1.1
+  have hhi := hin.1.2
+  unfold Le2 at hlo hhi
+  have k1 : (e - 2 - 0).toNat = 0 := by omega
+  have k2 : (-S).toNat = 0 := by omega
+  rw [k1, k2, eW, Nat.pow_zero, Nat.mul_one, Nat.mul_one] at hlo hhi
+  have hl : 4 * m - 2 ≤ l4 m asym := by unfold l4; split <;> omega
+  have hh : h4 m = 4 * m + 2 := rfl
+  have h2 : 1 * W ≤ n * W := Nat.mul_le_mul_right W h0
+  generalize D * 10 ^ S.toNat = N at hlo hhi ⊢
+  rcases Nat.lt_trichotomy N n with hlt | heq | hgt
+  · exfalso
+    have h1 : (N + 1) * W ≤ n * W := Nat.mul_le_mul_right W hlt
+    rw [Nat.add_mul, Nat.one_mul] at h1
+    omega
+  · exact heq
+  · exfalso
+    have h1 : (n + 1) * W ≤ N * W := Nat.mul_le_mul_right W hgt
+    rw [Nat.add_mul, Nat.one_mul] at h1
+    omega
+
+/-- **integer branch**: `m·2^e = n` (`e ≤ 0`, `0 < n < 10^20`): the digits of `n` without its trailing zeros are at
+most `D` for every decimal `D·10^S` (`D > 0`) inside the rounding interval -/
+theorem int_le (m : Nat) (e : Int) (asym : Bool) (n : Nat) (he : e ≤ 0) (hn : m = n * 2 ^ (-e).toNat)
+    (h0 : 0 < n) (hlt : n < 10 ^ 20) (D : Nat) (S : Int) (hin : Inside m e asym D S) :
+    (F64.stripZeros 20 n 0).1 ≤ D := by
+  obtain ⟨hv, hz0, hz20, hpos⟩ := stripZeros_spec 20 n 0
+  have hle : (F64.stripZeros 20 n 0).1 ≤ n := by
+    have := Nat.le_mul_of_pos_right (F64.stripZeros 20 n 0).1
+      (Nat.pow_pos (n := ((F64.stripZeros 20 n 0).2 - 0).toNat) (show 0 < 10 by decide))
+    rw [hv] at this
+    exact this
+  by_cases hS : S < 0
+  · exact Nat.le_trans hle (ftm_int_ge m e asym n he hn h0 D S hS hin)
+  · have heq := ftm_int_eq m e asym n he hn h0 D S (by omega) hin
+    have hd : (F64.stripZeros 20 n 0).1 % 10 ≠ 0 := by
+      rcases stripZeros_done 20 n 0 h0 with h | h
+      · exact h
+      · exfalso
+        have e20 : ((F64.stripZeros 20 n 0).2 - 0).toNat = 20 := by rw [h]; rfl
+        rw [e20] at hv
+        have := Nat.mul_le_mul_right (10 ^ 20) (hpos h0)
+        omega
+    exact ftm_pow_cancel _ D _ _ hd (hv.trans heq.symm)
+
+theorem int_minimal (m : Nat) (e : Int) (hc : Canon m e) (n : Nat) (he : e ≤ 0) (hn : m = n * 2 ^ (-e).toNat)
+    (h0 : 0 < n) (D : Nat) (S : Int) (hin : Inside m e (asymOf m e) D S) :
+    ndigits (F64.stripZeros 20 n 0).1 ≤ ndigits D := by
+  have hnm : n ≤ m := by
+    rw [hn]; exact Nat.le_mul_of_pos_right _ (Nat.pow_pos (by decide))
+  have hlt : n < 10 ^ 20 := Nat.lt_of_le_of_lt hnm (Nat.lt_trans hc.lt (by decide))
+  exact ndigits_mono (int_le m e _ n he hn h0 hlt D S hin)
+
+/-! ## headline -/
+
+theorem ftm_shortestGen_eq (ab : UInt64) (hz : ab ≠ 0) (he : F64.expField ab ≠ 0x7FF) :
+    F64.shortestGen ab =
+      F64.pick (F64.scale (F64.decompose ab).1 (F64.decompose ab).2
+          (asymOf (F64.decompose ab).1 (F64.decompose ab).2)) 19 1000000000000000000
+        ((F64.scale (F64.decompose ab).1 (F64.decompose ab).2
+          (asymOf (F64.decompose ab).1 (F64.decompose ab).2)).s0 + 18) := by
+  rw [← asym_flag ab hz he]
+  rfl
+
+/-- **the digits of `fmt` are the shortest**: `ab` the bit pattern of a finite non-zero double (sign cleared),
+`(m, e) = decompose ab` canonical; `(d, s) = stripZeros 20 (shortest ab)` are the digits `fmtBits` prints.
+Every decimal `D·10^S`, `D > 0`, inside the rounding interval of the double has at least as many digits as `d` —
+in particular every decimal written with its significant digits only (`D % 10 ≠ 0`). -/
+theorem shortest_minimal (ab : UInt64) (hz : ab ≠ 0) (he : F64.expField ab ≠ 0x7FF)
+    (hc : Canon (F64.decompose ab).1 (F64.decompose ab).2) (D : Nat) (S : Int) (hD : 0 < D)
+    (hin : Inside (F64.decompose ab).1 (F64.decompose ab).2
+      (asymOf (F64.decompose ab).1 (F64.decompose ab).2) D S) :
+    ndigits (F64.stripZeros 20 (F64.shortest ab).1 (F64.shortest ab).2).1 ≤ ndigits D := by
+  unfold F64.shortest
+  cases hsi : F64.smallInt? ab with
+  | some n =>
+    obtain ⟨h1, h2, h3⟩ := smallInt_spec ab n hsi
+    exact int_minimal _ _ hc n h1 h2 h3 D S hin
+  | none =>
+    simp only []
+    have hp := ftm_shortestGen_eq ab hz he
+    have hp' : F64.pick _ 19 1000000000000000000 _ = ((F64.shortestGen ab).1, (F64.shortestGen ab).2) := hp.symm
+    have hmin := pick_minimal _ _ hc _ _ hp' D S hD hin
+    have hntz := pick_no_trailing_zero _ _ hc _ _ hp'
+    rw [stripZeros_id _ _ _ hntz]
+    exact hmin.2
+
+/-- the same, spelled with `Nat.toDigits` (the digit string `fmtBits` hands to `positional`) -/
+theorem shortest_minimal_toDigits (ab : UInt64) (hz : ab ≠ 0) (he : F64.expField ab ≠ 0x7FF)
+    (hc : Canon (F64.decompose ab).1 (F64.decompose ab).2) (D : Nat) (S : Int) (hD : 0 < D)
+    (hin : Inside (F64.decompose ab).1 (F64.decompose ab).2
+      (asymOf (F64.decompose ab).1 (F64.decompose ab).2) D S) :
+    (Nat.toDigits 10 (F64.stripZeros 20 (F64.shortest ab).1 (F64.shortest ab).2).1).length ≤
+      (Nat.toDigits 10 D).length := shortest_minimal ab hz he hc D S hD hin
+
+/-- for a finite non-zero `x : Float`: the hypotheses of `shortest_minimal` hold for `ab = |bits of x|` -/
+theorem shortest_minimal_float (x : Float) (he : F64.expField x.toBits ≠ 0x7FF)
+    (hz : x.toBits &&& F64.absMask ≠ 0) (D : Nat) (S : Int) (hD : 0 < D)
+    (hin : Inside (F64.decompose (x.toBits &&& F64.absMask)).1 (F64.decompose (x.toBits &&& F64.absMask)).2
+      (asymOf (F64.decompose (x.toBits &&& F64.absMask)).1 (F64.decompose (x.toBits &&& F64.absMask)).2) D S) :
+    (Nat.toDigits 10 (F64.stripZeros 20 (F64.shortest (x.toBits &&& F64.absMask)).1
+        (F64.shortest (x.toBits &&& F64.absMask)).2).1).length ≤ (Nat.toDigits 10 D).length :=
+  shortest_minimal _ hz (by rw [expField_abs]; exact he) (unpack_finite x he hz).1 D S hD hin
+
 end Aplang.FloatText
+
+/- axiom audit (run once, 2026-09-30): every theorem below ⊆ {propext, Classical.choice, Quot.sound}
+#print axioms Aplang.FloatText.pick_minimal
+#print axioms Aplang.FloatText.pick_no_trailing_zero
+#print axioms Aplang.FloatText.pick_stop
+#print axioms Aplang.FloatText.scale_hi_le
+#print axioms Aplang.FloatText.int_le
+#print axioms Aplang.FloatText.int_minimal
+#print axioms Aplang.FloatText.shortest_minimal
+#print axioms Aplang.FloatText.shortest_minimal_toDigits
+#print axioms Aplang.FloatText.shortest_minimal_float
+-/
